@@ -64,6 +64,7 @@ import (
 	"bytes"
 	"context"
 	"fmt"
+	"os"
 	"sort"
 	"strings"
 	"sync"
@@ -611,6 +612,20 @@ func TestVerif_C13(t *testing.T) {
 	r := ve.NewRun("C13", "model_checking")
 	deadlock.Opts.Disable = true // production default; see C11
 	cfgs := c13Configs()
+	if only := os.Getenv("VERIF_C13_CONFIGS"); only != "" {
+		// development aid: run only the explorations whose name contains one of the
+		// comma-separated substrings (never set by bin/vcheck)
+		var sel []c13Config
+		for _, cf := range cfgs {
+			for _, sub := range strings.Split(only, ",") {
+				if strings.Contains(cf.name, sub) {
+					sel = append(sel, cf)
+					break
+				}
+			}
+		}
+		cfgs = sel
+	}
 	for i := range cfgs {
 		c13Proto(cfgs[i].balLook, cfgs[i].sp)
 	}
